@@ -501,6 +501,7 @@ def run(ctx: Ctx) -> None:
     run_reexport_sound(ctx)
     replay_hidden_cycle_witness(ctx)
     replay_early_mro_witness(ctx)
+    replay_unresolved_base_witness(ctx)
     replay_star_module_witness(ctx)
     replay_class_member_reexport_witness(ctx)
     run_hunter_shapes(ctx)
@@ -890,6 +891,49 @@ def replay_early_mro_witness(ctx: Ctx) -> None:
                  f"in M, 'E.w' resolves to {pd} but E derives from D.N = C.N (C3 order of D), whose w Python finds")
     else:
         ctx.count("witness:early-mro:sound-now")
+
+
+def replay_unresolved_base_witness(ctx: Ctx) -> None:
+    """`expandName`'s walk over `obj.mro()` while the modules are visited stops after a class with an unresolved base (/repo
+    d15323d; Imports.midWalk): `class E(D.X)` with `D(BB1, B2)`, `BB1` re-imported (not resolved at visit time), `X` bound by an
+    import in `B1` and in `B2`. Before the fix the base of `E` was the `X` of `B2`. Model vs the real System (the alias-assignment
+    form `Y = D.X` of the same defect is judged by run_hunter_shapes, outside the abstract syntax), System vs CPython."""
+    q3 = "'" * 3
+    units = [Unit("pkg", True, "", None),
+             Unit("pkg.defs", False, f"class P:\n    {q3}ID:P{q3}\n    pv = 701\nclass Q:\n    {q3}ID:Q{q3}\n    qv = 702\n", "pkg"),
+             Unit("pkg.bmod", False, f"class B1:\n    {q3}ID:B1{q3}\n    from .defs import P as X\nclass B2:\n    {q3}ID:B2{q3}\n"
+                                     "    from .defs import Q as X\n", "pkg"),
+             Unit("pkg.cmod", False, "from .bmod import B1\n", "pkg"),
+             Unit("pkg.dmod", False, f"from .cmod import B1 as BB1\nfrom .bmod import B2\nclass D(BB1, B2):\n    {q3}ID:D{q3}\n"
+                                     f"class E(D.X):\n    {q3}ID:E{q3}\n", "pkg")]
+    try:
+        toks, _info = abstract_project(units, pd_only=True)
+    except Unsupported as e:
+        ctx.count("witness:unresolved-base:unsupported:" + str(e))
+        return
+    names = ["E.pv", "E.qv", "D.X", "D.X.pv"]
+    reqs, impls, pay = [], [], []
+    got = []
+    for order in ([0, 1, 2, 3, 4], [4, 3, 2, 1, 0]):
+        system, mods, dup = build_real(units, order)
+        qs = ["R|4|-|%s" % enc(d) for d in names]
+        ans = [pd_answer(mods[4], d) for d in names]
+        reqs.append("imports build " + " ".join(toks) + " O|" + ",".join(map(str, order)) + " ? " + " ".join(qs))
+        impls.append("ok bad=%s | %s | %s" % ("true" if dup else "false", pd_dump(system), " ".join(ans)))
+        pay.append({"units": {u.qname: u.source for u in units}, "order": order})
+        r = mods[4].resolveName("E.qv")
+        got.append(None if r is None else r.fullName())
+    compare_lines(ctx, "imports-build-unresolved-base", reqs, impls, pay)
+    py = run_cpython([{"files": files_of(units), "modules": [u.qname for u in units], "sites": True}])[0]
+    pyv = (py.get("sites") or {}).get("pkg.dmod", {}).get("E.pv")
+    ctx.traces_validated += 1
+    if py.get("error") or pyv != "v:701":
+        ctx.disagree("witness-unresolved-base", {"units": {u.qname: u.source for u in units}}, "Python: E.pv is the 701 of P", str(pyv))
+    elif any(g is not None for g in got):
+        # E.qv is not bound for Python: no verdict of the property, only the sign that the base of E was taken from B2
+        ctx.count("witness:unresolved-base:base-from-later-class")
+    else:
+        ctx.count("witness:unresolved-base:sound-now")
 
 
 def replay_star_module_witness(ctx: Ctx) -> None:
